@@ -690,6 +690,7 @@ func (c *Client) Do(ctx context.Context, q Query) (err error) {
 		result := proto.ColInfoInput{}
 		q.Result = &result
 		colInfo = make(chan proto.ColInfoInput, 1)
+		var infoSent bool
 		q.OnResult = func(ctx context.Context, block proto.Block) error {
 			if ce := c.lg.Check(zap.DebugLevel, "Received column info"); ce != nil {
 				info := make(map[string]proto.ColumnType, len(result))
@@ -699,10 +700,18 @@ func (c *Client) Do(ctx context.Context, q Query) (err error) {
 				ce.Write(zap.Any("columns", info))
 			}
 			verifAt(ctx, c, "R.info")
+			if infoSent {
+				// The sender waits for column info only once.
+				return nil
+			}
+			infoSent = true
+			// Copy: result is overwritten by the next block while the
+			// sender is still using the info.
+			info := append(proto.ColInfoInput(nil), result...)
 			select {
 			case <-ctx.Done():
 				return ctx.Err()
-			case colInfo <- result:
+			case colInfo <- info:
 				return nil
 			}
 		}
